@@ -319,7 +319,8 @@ func Exp2(d Decimal) Decimal {
 	var expInt int16
 
 	if dSigInt != 0 {
-		if dSigInt > exponentBias+maxDigits {
+		// 2**dSigInt is beyond 10**(exponentBias+maxDigits+1) in magnitude
+		if dSigInt > (exponentBias+maxDigits+1)*1000/301 {
 			if d.Signbit() {
 				return zero(false)
 			}
